@@ -111,6 +111,7 @@ def _resolve_added_keys(ci):
 
 
 def check(ctx):
+    _framing.per_tick_over_actives(ctx)
     repo = ctx.repo
     ctx.rule("T3-firstwins", "segue: auxes first, then precur top-down returning at the first truthy result; "
              "Frame.precur returns True at the first truthy preact; Transiter.action returns None at the "
@@ -150,10 +151,7 @@ def check(ctx):
         ok = len(g.generators) == 1 and src(g.generators[0].iter) == "self.preacts" and not g.generators[0].ifs and \
             isinstance(g.elt, ast.Call) and dotted(g.elt.func) == dotted(g.generators[0].target) and not g.elt.args
     else:
-        lp = P.need(lp, "preacts loop")
-        t = P.need(P.tests(lambda t: isinstance(t, ast.Call) and dotted(t.func) == "act"), "`if act():`")
-        ok = any(P.dominated_by_edge([r], t[0], "T") and isinstance(r.ast.value, ast.Constant) and r.ast.value.value is True for r in rets)
-        ok = ok and _framing.every_iteration_passes(P, lp[0], t) and not P.call_nodes(("reversed", "reverse", "sorted"))
+        ok = _framing.precur_first_truthy(ctx, P, rets)
     ctx.check(ok, "T3-firstwins", fp, "precur: for act in preacts: if act(): return True", "preacts run in script order; first truthy interrupts")
     ta = ctx.fn("acting", "Transiter.action")
     T = FuncView(ctx, ta)
